@@ -25,7 +25,7 @@ RULE = ("seeded histories (4-25 ops over fit/partial_fit/add_arm/remove_arm/re-a
         "state is compared with the ledger model, every query with the replayed sampler. Non-trivial = history "
         "with a partial_fit omitting an already observed arm, or an arm change after training; distinct = "
         "(policy, label type, feature set, op skeleton)")
-BUDGET = {"quick": {"cases": 640, "shards": 8}, "thorough": {"cases": 40000, "shards": 16, "wall_s": 1500}}
+BUDGET = {"quick": {"cases": 1280, "shards": 16}, "thorough": {"cases": 40000, "shards": 16, "wall_s": 3600}}
 MIN = {"quick": {"evaluations": 3000, "nontrivial": 100, "counters": {"huge_batches": 12}},
        "thorough": {"evaluations": 100000, "nontrivial": 2000, "counters": {"huge_batches": 600}}}
 ASSUMPTIONS = ["rewards finite; binary for Thompson, non-negative for Popularity; decisions drawn from the current arms",
@@ -152,6 +152,7 @@ def run_case(rs, ctx):
         cuts = sorted(int(c) for c in rs.integers(0, nbig, len(arms_now) - 1)) if len(arms_now) > 1 else []
         if cuts and rs.integers(2):
             cuts[-1] = min(cuts[-1], 2 ** 20 - 7)  # the last arm's run starts before the 2^20-th row ...
+            cuts.sort()
         bounds = [0] + cuts + [nbig]
         order = [arms_now[int(i)] for i in rs.permutation(len(arms_now))]
         dbig = []
